@@ -324,6 +324,10 @@ def oracle_encode_items(payload):
                 continue
             if has_surrogate(t):
                 continue        # cannot be handed to the command-line iconv
+            if any(0xE0000 <= ord(ch) <= 0xE007F for ch in t):
+                # glibc's iconv silently DROPS Unicode tag characters (U+E0000..U+E007F) when converting from UCS instead of converting
+                # or rejecting them; "agrees with the system iconv" cannot mean reproducing that omission, so these inputs are not compared
+                continue
             c = iconv_cli('UTF-32LE', name, t.encode('utf-32-le'))
             if c[0] == 'ok':
                 fails.append(('iconv-disagree', name, [ord(x) for x in t], 'codec cannot encode position %d, iconv can' % s))
